@@ -314,43 +314,57 @@ def systemStep (d : Desc) (system : String) (number : Int) (v : Int) : Step :=
     if d.additive.length = 0 then .decimal else ofRes (additive d.additive v) .fallback
   else .initial ""
 
-/-- `CounterStyle.renderValue`; `RenderValue(v, "decimal")` is the local `decimal`. -/
+/-- what one activation of `renderValue` does: return, or tail-call `c.RenderValue(v, "decimal")`,
+    or tail-call `c.renderValue(v, c.resolveCounter(name, previousTypes), previousTypes)` -/
+inductive Next where
+  | ret (o : Out)
+  | decimal (v : Int)
+  | fallback (name : String) (prev : List String) (v : Int)
+
+/-- the body of `CounterStyle.renderValue` after the circularity check: extends loop, steps 2-6 -/
+def stepResolved (c : Table) (v : Int) (counter : Desc) (p0 : List String) (ext system : String) (number : Int) : Next :=
+  match rvLoop c (loopFuel c) counter p0 ext system number with
+  | .diverge => .ret .diverge
+  | .decimal => .decimal v
+  | .done counter p system number =>
+    if !inRanges (effRanges counter system) v then .fallback counter.fallbackName p v
+    else
+      let isNeg := v < 0
+      let negZ := counter.neg1 == NS.zero && counter.neg2 == NS.zero
+      let negPre := if negZ then "-" else symbol counter.neg1
+      let negSuf := if negZ then "" else symbol counter.neg2
+      let useNeg := isNeg && usesNegative system
+      let v := if useNeg then (v.natAbs : Int) else v
+      match systemStep counter system number v with
+      | .panic w => .ret (.panic w)
+      | .decimal => .decimal v
+      | .fallback => .fallback counter.fallbackName p v
+      | .initial s => .ret (.ok (finish counter useNeg negPre negSuf s))
+
+/-- the body of `CounterStyle.renderValue` up to its (tail) calls -/
+def stepValue (c : Table) (v : Int) (counter : Option Desc) (prev : Option (List String)) : Next :=
+  match counter with
+  | none => if (c.get? "decimal").isSome then .decimal v else .ret (.ok "")
+  | some counter =>
+    if (match prev with | some p => p.contains counter.sys3.2.1 | none => false) then .decimal v
+    else stepResolved c v counter (prev.getD []) counter.sys3.1 counter.sys3.2.1 counter.sys3.2.2
+
+/-- `CounterStyle.renderValue`: the recursion (every recursive call of the Go function is a tail call) -/
 def renderValue (c : Table) : Nat → Int → Option Desc → Option (List String) → Out
   | 0, _, _, _ => .diverge
   | fuel + 1, v, counter, prev =>
-    let decimal (v : Int) : Out :=
+    match stepValue c v counter prev with
+    | .ret o => o
+    | .decimal v =>
       match resolveCounter c "decimal" none with
       | .diverge => .diverge
       | .nil => renderValue c fuel v none none
       | .found d _ => renderValue c fuel v (some d) none
-    match counter with
-    | none => if (c.get? "decimal").isSome then decimal v else .ok ""
-    | some counter =>
-      let (ext, system, number) := counter.sys3
-      if (match prev with | some p => p.contains system | none => false) then decimal v
-      else
-        match rvLoop c (loopFuel c) counter (prev.getD []) ext system number with
-        | .diverge => .diverge
-        | .decimal => decimal v
-        | .done counter p system number =>
-          let fallback (v : Int) : Out :=
-            match resolveCounter c counter.fallbackName (some p) with
-            | .diverge => .diverge
-            | .nil => renderValue c fuel v none (some p)
-            | .found d p' => renderValue c fuel v (some d) (some p')
-          if !inRanges (effRanges counter system) v then fallback v
-          else
-            let isNeg := v < 0
-            let negZ := counter.neg1 == NS.zero && counter.neg2 == NS.zero
-            let negPre := if negZ then "-" else symbol counter.neg1
-            let negSuf := if negZ then "" else symbol counter.neg2
-            let useNeg := isNeg && usesNegative system
-            let v := if useNeg then (v.natAbs : Int) else v
-            match systemStep counter system number v with
-            | .panic w => .panic w
-            | .decimal => decimal v
-            | .fallback => fallback v
-            | .initial s => .ok (finish counter useNeg negPre negSuf s)
+    | .fallback name p v =>
+      match resolveCounter c name (some p) with
+      | .diverge => .diverge
+      | .nil => renderValue c fuel v none (some p)
+      | .found d p' => renderValue c fuel v (some d) (some p')
 
 /-- fuel that suffices for `renderValue` on 32-bit values (theorem `renderValue_total`) -/
 def renderFuel (c : Table) : Nat := c.length + 8
